@@ -386,4 +386,118 @@ theorem rej_closing (o : VOpts) {b : Nat} {st : TState} {f : Frame} {frest : Fra
       simp only [if_true] at hrt
       exact rej_of_err o st _ cnt base _ _ hrt (by simp)
 
+/-! ### frames arithmetic -/
+
+theorem ncDelim_arr0 (g : Frame) (gs : Frames) : ncDelim (.arr 0 :: g :: gs) = 0 := by
+  simp [ncDelim, delim, Frame.needValue, Frame.count, delimByte]
+theorem ncDelim_arrS (k : Nat) (g : Frame) (gs : Frames) : ncDelim (.arr (k + 1) :: g :: gs) = 0x2C := by
+  simp [ncDelim, delim, Frame.needValue, Frame.count, Kind.closing, delimByte]
+theorem ncDelim_obj0 (g : Frame) (gs : Frames) : ncDelim (.obj 0 :: g :: gs) = 0 := by
+  simp [ncDelim, delim, Frame.needValue, Frame.count, delimByte]
+theorem ncDelim_objOdd (n : Nat) (hn : n % 2 = 1) (g : Frame) (gs : Frames) : ncDelim (.obj n :: g :: gs) = 0x3A := by
+  simp [ncDelim, delim, Frame.needValue, hn, delimByte]
+theorem ncDelim_objEven (n : Nat) (hn : n % 2 = 0) (h0 : 0 < n) (g : Frame) (gs : Frames) :
+    ncDelim (.obj n :: g :: gs) = 0x2C := by
+  have : ¬ (n % 2 = 1) := by omega
+  simp [ncDelim, delim, Frame.needValue, this, Frame.count, h0, Kind.closing, delimByte]
+theorem ncDelim_bottom (f : Frame) : ncDelim [f] = 0 := by simp [ncDelim, delim, delimByte]
+
+theorem closeDelim_arr (k : Nat) (frest : Frames) (kk : Kind) (hk : kk.closing = true) :
+    delimByte (delim (.arr k :: frest) kk) = 0 := by
+  cases frest with
+  | nil => simp [delim, delimByte]
+  | cons g gs => simp [delim, Frame.needValue, hk, delimByte]
+theorem closeDelim_objEven (n : Nat) (hn : n % 2 = 0) (frest : Frames) (kk : Kind) (hk : kk.closing = true) :
+    delimByte (delim (.obj n :: frest) kk) = 0 := by
+  have : ¬ (n % 2 = 1) := by omega
+  cases frest with
+  | nil => simp [delim, delimByte]
+  | cons g gs => simp [delim, Frame.needValue, this, hk, delimByte]
+theorem closeDelim_objOdd (n : Nat) (hn : n % 2 = 1) (g : Frame) (gs : Frames) (kk : Kind) :
+    delimByte (delim (.obj n :: g :: gs) kk) = 0x3A := by
+  simp [delim, Frame.needValue, hn, delimByte]
+
+/-- after a value or a name: a byte that is neither the required delimiter nor an acceptable closing bracket -/
+theorem rej_unexpected (o : VOpts) {b : Nat} {st : TState} {fs : Frames} (h : TGood b st fs) (hb : b + 1 < 2^61)
+    (w : Bytes) (c : UInt8) (tl : Bytes) (hw : JWs w) (hcw : isWs c = false)
+    (hnc : (ncDelim fs == 0x3A || ncDelim fs == 0x2C) = true) (hc1 : c ≠ ncDelim fs)
+    (hcl : ∀ k : Kind, ((c = 0x5D ∧ k = .endArr) ∨ (c = 0x7D ∧ k = .endObj)) →
+      delimByte (delim fs k) ≠ 0 ∨ PDA.step maxNestingDepth fs k = none)
+    (hcolon : ∀ k : Kind, k.closing = true → delimByte (delim fs k) = 0x3A → ncDelim fs = 0x3A)
+    (hcomma : ∀ k : Kind, k.closing = true → delimByte (delim fs k) ≠ 0x2C)
+    (cnt base : Nat) : ∀ F, Rej (tokenLoop o F st (w ++ c :: tl) cnt base) := by
+  by_cases hcd : (c == 0x3A || c == 0x2C) = true
+  · -- taken for a delimiter: whatever follows does not ask for it
+    have hnd : ∀ x, st.m.needDelim x ≠ c := by
+      intro x
+      cases hxc : isClosing x with
+      | false => rw [needDelim_nc h x hxc]; exact fun h' => hc1 h'.symm
+      | true =>
+        rw [needDelim_good h x .endArr (by rw [hxc]; rfl)]
+        intro h'
+        simp only [Bool.or_eq_true, beq_iff_eq] at hcd
+        rcases hcd with rfl | rfl
+        · exact hc1 (hcolon .endArr rfl h').symm
+        · exact hcomma .endArr rfl h'
+    cases hd : tl.drop (consumeWhitespace tl) with
+    | nil =>
+      have hwt : JWs tl := by
+        have hsplit : tl = tl.take (consumeWhitespace tl) ++ tl.drop (consumeWhitespace tl) := (List.take_append_drop _ _).symm
+        rw [hd, List.append_nil] at hsplit; rw [hsplit]; exact ws_take tl
+      obtain ⟨off, e, he, hne'⟩ := readToken_delim_end o st w tl c hcd hw hwt
+      exact rej_of_err o st _ cnt base off e he hne'
+    | cons c1 tl1 =>
+      have hsplit : tl = tl.take (consumeWhitespace tl) ++ c1 :: tl1 := by rw [← hd]; exact (List.take_append_drop _ _).symm
+      have hc1w : isWs c1 = false := by
+        have := ws_stop tl c1 tl1 hd
+        rw [← isWs_iff] at this; simpa using this
+      have hrt := readToken_delim o st w (tl.take (consumeWhitespace tl)) c c1 tl1 hcd hw (ws_take tl) hc1w
+      rw [← hsplit] at hrt
+      have : (st.m.needDelim (normKind c1) != c) = true := by simpa using hnd (normKind c1)
+      rw [this] at hrt
+      simp only [if_true] at hrt
+      exact rej_of_err o st _ cnt base _ _ hrt (by simp)
+  · have hcd' : (c == 0x3A || c == 0x2C) = false := by simpa using hcd
+    have hrt := readToken_nodelim o st w c tl hw hcw hcd'
+    cases hcc : isClosing c with
+    | false =>
+      rw [needDelim_nc h (normKind c) (by rw [normKind_closing]; exact hcc)] at hrt
+      have : (ncDelim fs != 0) = true := by
+        simp only [Bool.or_eq_true, beq_iff_eq] at hnc
+        rcases hnc with h' | h' <;> rw [h'] <;> decide
+      rw [this] at hrt
+      simp only [if_true] at hrt
+      exact rej_of_err o st _ cnt base _ _ hrt (by simp)
+    | true =>
+      obtain ⟨k, hck⟩ : ∃ k : Kind, (c = 0x5D ∧ k = .endArr) ∨ (c = 0x7D ∧ k = .endObj) := by
+        simp only [isClosing, Bool.or_eq_true, beq_iff_eq] at hcc
+        rcases hcc with rfl | rfl
+        · exact ⟨.endObj, Or.inr ⟨rfl, rfl⟩⟩
+        · exact ⟨.endArr, Or.inl ⟨rfl, rfl⟩⟩
+      have hkc : k.closing = true := by rcases hck with ⟨-, rfl⟩ | ⟨-, rfl⟩ <;> rfl
+      rw [needDelim_good h (normKind c) k (by rw [normKind_closing, hcc, hkc])] at hrt
+      rcases hcl k hck with hne | hnone
+      · have : (delimByte (delim fs k) != 0) = true := by simpa using hne
+        rw [this] at hrt
+        simp only [if_true] at hrt
+        exact rej_of_err o st _ cnt base _ _ hrt (by simp)
+      · by_cases hz : delimByte (delim fs k) = 0
+        · rw [hz] at hrt
+          simp only [bne_self_eq_false, Bool.false_eq_true, if_false] at hrt
+          obtain ⟨e, he, hne⟩ := lexToken_close_err o h hb c k hck hnone w.length tl
+          rw [he] at hrt
+          exact rej_of_err o st _ cnt base _ _ hrt hne
+        · have : (delimByte (delim fs k) != 0) = true := by simpa using hz
+          rw [this] at hrt
+          simp only [if_true] at hrt
+          exact rej_of_err o st _ cnt base _ _ hrt (by simp)
+
+/-- end of input (blanks only) inside a container, possibly after the delimiter -/
+theorem rej_end (o : VOpts) {b : Nat} {st : TState} {fs : Frames} (h : TGood b st fs) (hd : 2 ≤ fs.length)
+    (w : Bytes) (hw : JWs w) (cnt base : Nat) : ∀ F, Rej (tokenLoop o F st w cnt base) := by
+  have hrt := readToken_end o st w hw
+  have : (st.m.depth == 1) = false := by rw [good_depth h]; simp; omega
+  rw [this] at hrt
+  exact rej_of_err o st _ cnt base _ _ hrt (by simp)
+
 end JsonV.Lemmas.WireTokens
